@@ -46,17 +46,6 @@ import (
 
 const ts = 1000
 
-var contractAddr = map[string]common.Address{
-	"SideChainManagerContractAddress":  utils.SideChainManagerContractAddress,
-	"HeaderSyncContractAddress":        utils.HeaderSyncContractAddress,
-	"CrossChainManagerContractAddress": utils.CrossChainManagerContractAddress,
-	"NodeManagerContractAddress":       utils.NodeManagerContractAddress,
-	"RelayerManagerContractAddress":    utils.RelayerManagerContractAddress,
-	"Neo3StateManagerContractAddress":  utils.Neo3StateManagerContractAddress,
-	"SignatureManagerContractAddress":  utils.SignatureManagerContractAddress,
-	"ReplenishContractAddress":         utils.ReplenishContractAddress,
-}
-
 func ser(f func(*common.ZeroCopySink)) []byte {
 	s := common.NewZeroCopySink(nil)
 	f(s)
@@ -103,16 +92,15 @@ func (e *env) must(w *mapworld.World, what string, h uint32, t *types.Transactio
 }
 
 const (
-	chPending  = 901 // registration requested, not approved
-	chUpdate   = 902 // registered (owner O1): updateSideChain
-	chUpdReq   = 903 // registered + update requested: approveUpdateSideChain
-	chQuit     = 904 // registered (owner O1): quitSideChain
-	chQuitReq  = 905 // registered + quit requested: approveQuitSideChain
-	chNew      = 906 // unused id: registerSideChain
-	chVote     = 950 // router 0 (consensus vote)
-	chRipple   = 951 // router 23 (ripple), ExtraInfo.Operator = O1
-	chFee      = 952 // plain chain for updateFee / black / white
-	approveIDs = 0
+	chPending = 901 // registration requested, not approved
+	chUpdate  = 902 // registered (owner O1): updateSideChain
+	chUpdReq  = 903 // registered + update requested: approveUpdateSideChain
+	chQuit    = 904 // registered (owner O1): quitSideChain
+	chQuitReq = 905 // registered + quit requested: approveQuitSideChain
+	chNew     = 906 // unused id: registerSideChain
+	chVote    = 950 // router 0 (consensus vote)
+	chRipple  = 951 // router 23 (ripple), ExtraInfo.Operator = O1
+	chFee     = 952 // plain chain for updateFee / black / white
 )
 
 func (e *env) sideChainArgs(owner common.Address, id, router uint64, extra []byte) []byte {
@@ -495,6 +483,9 @@ func (x *runner) runScenario(sc scenario, d polyenv.Dump, cons []*polyenv.Acct, 
 			r.HarnessError("validly signed transaction not admitted: %s: %v", what, err)
 		}
 		has := sc.Kind == "open" || addrs[required]
+		if len(sub) == 2 && (sub[0] == 0 || sub[0] == 3) && sub[1] == 5 && world == "epoch1" {
+			r.Sample(map[string]any{"scenario": sc.ID, "signers": names(atoms, sub), "required": reqName, "accepted": ok, "error": short(err)})
+		}
 		r.Case(fmt.Sprintf("%s/%s/has=%v/ok=%v", sc.Kind, sc.Method, has, ok))
 		switch {
 		case ok && !has:
